@@ -71,6 +71,22 @@ def run_case(case):
     layout = rng.choice(["two", "aligned", "random", "random", "cluster", "last_step"])
     sde = zoo.cell_sde(cell, d=d, m=m, seed=rng.randrange(10 ** 6), gscale=0.5)
     tsl = _mk_ts(rng, t0, T, layout, dt)
+    # (times that coincide in the dtype the library will take them in - float32 tensors, or lists with a float32 state -
+    # are not strictly increasing there: such layouts are made legal by dropping the duplicates; found by the thorough
+    # tier as a harness error, t0 = 1200 in float32)
+    lib_dt = torch.float32 if (tdt == "f32" or (tdt in ("list", "tuple") and ydt == torch.float32)) else torch.float64
+
+    def canon(lst):
+        seen, out_ = set(), []
+        for x in lst:
+            k = float(torch.tensor(x, dtype=lib_dt))
+            if k not in seen:
+                seen.add(k)
+                out_.append(x)
+        return out_
+    tsl = canon(tsl)
+    if len(tsl) < 2:
+        return {"violations": [], "counters": {}, "nontrivial": False}
     entropy = rng.randrange(1, 10 ** 9)
     y0 = torch.randn(B, d, dtype=ydt, generator=torch.Generator().manual_seed(case["rseed"]))
     # the initial state may be any tensor layout (a transposed view, a stride-0 expansion); inputs are never modified
@@ -197,7 +213,7 @@ def run_case(case):
     # output-time invariance: a second layout sharing some output times
     keep = [t for t in tsl[1:-1] if rng.random() < 0.5]
     extra = [t0 + rng.uniform(0.02, 0.98) * T for _ in range(rng.choice([0, 1, 3]))]
-    ts2 = sorted(set([tsl[0], tsl[-1]] + keep + extra))
+    ts2 = canon(sorted(set([tsl[0], tsl[-1]] + keep + extra)))
     ys2, pr2, ts2_t = run(ts2)
     g1 = [(s["t0"], s["t1"]) for s in steps]
     g2 = [(s["t0"], s["t1"]) for s in pr2.steps]
